@@ -22,6 +22,15 @@ func init() {
 				n = 6000
 			}
 			var out []Case
+			// corpus: Join with nil arguments BETWEEN and around the causes (every non-nil cause stays reachable),
+			// same-kind sibling definitions, a derived factory
+			nt := []POpt{{T: "notrace"}}
+			out = append(out, runC01([]PStmt{
+				{T: "define", Kind: "k1", Opts: nt}, {T: "define", Kind: "k1", Opts: nt}, {T: "define", Kind: "k2", Opts: nt}, {T: "withopts", D: 1},
+				{T: "new", F: 0, Msg: "a"}, {T: "new", F: 1, Msg: "b"}, {T: "new", F: 3, Msg: "c"}, {T: "leaf", Msg: "l", Ty: "errors"},
+				{T: "join", F: 2, Cs: []*int{ip(0), nil, ip(1)}}, {T: "join", F: 2, Cs: []*int{nil, ip(0), nil, ip(2), nil}},
+				{T: "join", F: 0, Cs: []*int{ip(3), nil, nil, ip(1)}}, {T: "join", F: 2, Cs: []*int{ip(4), nil, ip(5)}},
+				{T: "errorsjoin", Cs: []*int{ip(0), nil, ip(2)}}, {T: "multi", Msg: "m", Cs: []*int{ip(1), nil, ip(0)}}}))
 			for i := 0; i < n; i++ {
 				cfg := p1Cfg{MaxStmts: 6 + i*12/n, Keys: p1Keys, Recover: true}
 				out = append(out, runC01(genProg(r, cfg)))
